@@ -67,10 +67,19 @@ def run_case(seed, tid, marathon=False):
     log = []
     gen.rng = RngProxy(gen.rng, log)
     events, stray = [], 0
+    greedy, hoard = (tid % 4 == 1), []
     for t in range(nticks):
         before = len(log)
         ps = gen.run_one_tick()
         calls = log[before:]
+        if greedy:
+            # a consumer that goes on using the list it was handed (merging a second source into it): the list is the caller's
+            delivered = list(ps)
+            if len(ps) <= 64:
+                ps.extend(hoard)
+            hoard.extend(delivered[:2])
+            del hoard[40:]
+            ps = delivered[:200]
         if ps:
             pj = []
             for p in ps:
